@@ -182,7 +182,26 @@ def history(rng, tier):
 def cases(tier, seed, rng):
     from vlib.runner import Case
     n = 300 if tier == 'quick' else 4000
-    return [Case(history(rng, tier), 'gen:props') for _ in range(n)]
+    out = [Case(history(rng, tier), 'gen:props') for _ in range(n)]
+    out.append(Case(old_format_lines(rng, 20 if tier == 'quick' else 400), 'gen:old-format'))
+    return out
+
+def old_format_lines(rng, n):
+    """properties of files in the format before 1.1.1 (one compound record per value), prepared with the HDF5 C API and read through the
+    public API: every value type, lengths 0..12, extremes"""
+    pool = {'Int32': ['Int32:%d' % v for v in (0, 1, -2, 2 ** 31 - 1, -2 ** 31, 5)],
+            'UInt32': ['UInt32:%d' % v for v in (0, 7, 2 ** 32 - 1)],
+            'Int64': ['Int64:%d' % v for v in (-1, 2 ** 40, 2 ** 63 - 1, -2 ** 63)],
+            'UInt64': ['UInt64:%d' % v for v in (3, 4, 2 ** 64 - 1)],
+            'Double': ['Double:' + f64(v) for v in (0.5, -0.0, 1e300, float('inf'))] + ['Double:d7ff8000000000001'],
+            'String': ['String:' + S(v) for v in ('alpha', '', 'grüße', 'x' * 300)],
+            'Bool': ['Bool:1', 'Bool:0']}
+    lines = []
+    for k in range(n):
+        t = list(pool)[k % len(pool)]
+        vals = [rng.choice(pool[t]) for _ in range(rng.choice([0, 1, 1, 2, 3, 5, 12]))]
+        lines.append('pv_old %s %s %s' % (t, lst(vals), f64(rng.choice([0.25, 1.5, 0.0, 1e-3]))))
+    return lines
 
 def nontrivial(case, tags):
     return any(t.startswith('pv_set.ok') for t in tags) and any(t.startswith('pv_get.') and t.endswith('.values') for t in tags)
@@ -190,4 +209,4 @@ def signature(f):
     return '%s:%s:%s' % (f.kind, f.tag().split('.')[0], f.rule())
 
 LEVEL_TEXT = ('Lean 4 theorems about a model of Property / PropertyHDF5 / the createProperty overloads that follows the C++ statement order, for every value and double token type and every history: an accepted assignment reads back exactly (types, order, length incl. 0) with valueCount = length; a later assignment replaces the earlier one entirely; clearing leaves no value and keeps type and attributes; a vector containing a value of another type is refused with the property untouched, at assignment and at creation; unit (deblanked, all-blank unsets), uncertainty and definition read back as last set and are independent of the values; a refused call of any kind leaves every property as it was; calls on one property leave the others alone; reopen changes nothing; and by induction over arbitrary call sequences (creations, assignments, clearings, attribute changes, deletions and re-creations, reopens, refused calls) the decidable relation Rel of Spec/C14.lean holds between every existing property and the history of accepted calls. The same Rel is evaluated on every answer of the library in differential histories over the 7 value types with extremes, NaN payloads, long and UTF-8 strings, vectors of length 0..64, read-only sessions and reopen.')
-LEVEL_NOTE = ('Trusted: Lean kernel; the idealised 1-d dataset and attribute store (H5Dset_extent keeps a prefix and zero-fills, whole-extent write, attribute round trip) validated each run; persistence across close + reopen is checked by the correspondence run only; strings without NUL bytes; names not UUID-shaped; old-format (< 1.1.1) compound values not modelled; the initial content of a property created from a type alone (8 fill values) is compared with the model but not constrained by the property; harness.')
+LEVEL_NOTE = ('Trusted: Lean kernel; the idealised 1-d dataset and attribute store (H5Dset_extent keeps a prefix and zero-fills, whole-extent write, attribute round trip) validated each run; persistence across close + reopen is checked by the correspondence run only; strings without NUL bytes; names not UUID-shaped; old-format (< 1.1.1) compound values are not part of the model: files of that format are prepared with the HDF5 C API and what the public API reads from them is compared with what the records hold (rule old_format_values_are_read_back); the initial content of a property created from a type alone (8 fill values) is compared with the model but not constrained by the property; harness.')
